@@ -428,7 +428,7 @@ fn blame(block: &[u8], role: Role, want_rejected: bool) -> Vec<String> {
 
 /// Compare s2n's decision on `block` with the table. Returns (verdict class, s2n accepted).
 pub fn check_block(ctx: &mut Ctx, block: &[u8], role: Role) -> (u8, bool) {
-    let replay = json!({"check": "tp", "role": role_str(role), "hex": hex(block)});
+    let replay = || json!({"check": "tp", "role": role_str(role), "hex": hex(block)});
     let got = match s2n::tp_decode(block, role) {
         Ok(g) => g,
         Err(p) => {
@@ -439,7 +439,7 @@ pub fn check_block(ctx: &mut Ctx, block: &[u8], role: Role) -> (u8, bool) {
                     PROPERTY,
                     format!("panic:tp-decode:{}", slug(&p.0)),
                     format!("transport parameter decode panicked: {}", p.0),
-                    replay,
+                    replay(),
                 );
             } else {
                 ctx.sum.inconclusive.push(format!("harness panic: {}", p.0));
@@ -473,7 +473,7 @@ pub fn check_block(ctx: &mut Ctx, block: &[u8], role: Role) -> (u8, bool) {
                         want,
                         v.v
                     ),
-                    replay,
+                    replay(),
                 );
             }
             (0, accepted)
@@ -493,7 +493,7 @@ pub fn check_block(ctx: &mut Ctx, block: &[u8], role: Role) -> (u8, bool) {
                     role_str(role),
                     hex(block)
                 ),
-                replay,
+                replay(),
             );
             (0, accepted)
         }
@@ -513,7 +513,7 @@ pub fn check_block(ctx: &mut Ctx, block: &[u8], role: Role) -> (u8, bool) {
                     hex(block),
                     v.v
                 ),
-                replay,
+                replay(),
             );
             (1, accepted)
         }
@@ -564,7 +564,7 @@ fn first_difference(a: &tp::Values, b: &tp::Values) -> &'static str {
 
 pub fn one(ctx: &mut Ctx, seed: u64, index: u64) {
     let mut rng = Rng::new(mix(seed ^ 0x7470, index));
-    ctx.set_current(|| format!("tp seed={seed} index={index}"));
+    ctx.set_current("tp");
     ctx.sum.evaluations += 1;
     let class = rng.below(20);
     let (mut block, role, mut tags, cname) = if class == 0 {
